@@ -630,6 +630,7 @@ def pull_client_hello(buf: Buffer) -> ClientHello:
 
             extension_type = buf.pull_uint16()
             extension_length = buf.pull_uint16()
+            extension_end = buf.tell() + extension_length
             if extension_type == ExtensionType.KEY_SHARE:
                 hello.key_share = pull_list(buf, 2, partial(pull_key_share, buf))
             elif extension_type == ExtensionType.SUPPORTED_VERSIONS:
@@ -655,6 +656,8 @@ def pull_client_hello(buf: Buffer) -> ClientHello:
                 hello.other_extensions.append(
                     (extension_type, buf.pull_bytes(extension_length))
                 )
+            if buf.tell() != extension_end:
+                raise AlertDecodeError("extension length does not match its content")
 
         pull_list(buf, 2, pull_extension)
 
@@ -743,6 +746,7 @@ def pull_server_hello(buf: Buffer) -> ServerHello:
         def pull_extension() -> None:
             extension_type = buf.pull_uint16()
             extension_length = buf.pull_uint16()
+            extension_end = buf.tell() + extension_length
             if extension_type == ExtensionType.SUPPORTED_VERSIONS:
                 hello.supported_version = buf.pull_uint16()
             elif extension_type == ExtensionType.KEY_SHARE:
@@ -753,6 +757,8 @@ def pull_server_hello(buf: Buffer) -> ServerHello:
                 hello.other_extensions.append(
                     (extension_type, buf.pull_bytes(extension_length))
                 )
+            if buf.tell() != extension_end:
+                raise AlertDecodeError("extension length does not match its content")
 
         pull_list(buf, 2, pull_extension)
 
@@ -813,12 +819,15 @@ def pull_new_session_ticket(buf: Buffer) -> NewSessionTicket:
         def pull_extension() -> None:
             extension_type = buf.pull_uint16()
             extension_length = buf.pull_uint16()
+            extension_end = buf.tell() + extension_length
             if extension_type == ExtensionType.EARLY_DATA:
                 new_session_ticket.max_early_data_size = buf.pull_uint32()
             else:
                 new_session_ticket.other_extensions.append(
                     (extension_type, buf.pull_bytes(extension_length))
                 )
+            if buf.tell() != extension_end:
+                raise AlertDecodeError("extension length does not match its content")
 
         pull_list(buf, 2, pull_extension)
 
@@ -860,6 +869,7 @@ def pull_encrypted_extensions(buf: Buffer) -> EncryptedExtensions:
         def pull_extension() -> None:
             extension_type = buf.pull_uint16()
             extension_length = buf.pull_uint16()
+            extension_end = buf.tell() + extension_length
             if extension_type == ExtensionType.ALPN:
                 extensions.alpn_protocol = pull_list(
                     buf, 2, partial(pull_alpn_protocol, buf)
@@ -870,6 +880,8 @@ def pull_encrypted_extensions(buf: Buffer) -> EncryptedExtensions:
                 extensions.other_extensions.append(
                     (extension_type, buf.pull_bytes(extension_length))
                 )
+            if buf.tell() != extension_end:
+                raise AlertDecodeError("extension length does not match its content")
 
         pull_list(buf, 2, pull_extension)
 
@@ -957,6 +969,7 @@ def pull_certificate_request(buf: Buffer) -> CertificateRequest:
         def pull_extension() -> None:
             extension_type = buf.pull_uint16()
             extension_length = buf.pull_uint16()
+            extension_end = buf.tell() + extension_length
             if extension_type == ExtensionType.SIGNATURE_ALGORITHMS:
                 certificate_request.signature_algorithms = pull_list(
                     buf, 2, buf.pull_uint16
@@ -965,6 +978,8 @@ def pull_certificate_request(buf: Buffer) -> CertificateRequest:
                 certificate_request.other_extensions.append(
                     (extension_type, buf.pull_bytes(extension_length))
                 )
+            if buf.tell() != extension_end:
+                raise AlertDecodeError("extension length does not match its content")
 
         pull_list(buf, 2, pull_extension)
 
